@@ -18,4 +18,6 @@ for id in "$@"; do
   if [ $rc -ge 2 ]; then echo "$out" | tail -5; fi
 done
 git -C /repo checkout -- .
+# the evidence files now describe runs against the seeded tree: restore the committed ones
+git -C /verif checkout -- evidence 2>/dev/null
 echo "CAUGHT BY:${caught:- none}"
